@@ -2,7 +2,7 @@
 Require Extraction.
 Require Import ExtrOcamlBasic.
 From Coq Require Import NArith ZArith QArith List.
-From M17 Require Import Checked ConstsApp ImplAx25 ImplApp ImplRxIndex.
+From M17 Require Import Checked ConstsApp ImplAx25 ImplApp ImplRxIndex ConstsCorrelator ImplCorrelator.
 
 (* codec2 stand-in for the executable model: the correspondence compares the blocks handed to
    codec2_decode and the number of bytes written, never the decoded audio itself *)
@@ -20,5 +20,17 @@ Definition c07_lich_copy := lich_copy.
 Definition c07_unpack_lich := unpack_lich (fun cw => Some cw).
 Definition c07_sample_index_of := sample_index_of.
 Definition c07_sample_index_update0 := sample_index_update0.
+(* Correlator / SyncWord index models at V = Z (integral sample values; |f| > |p| and p > 0 as in the C++) *)
+Definition c07_corr_sizes : nat * nat * nat := (corr_buffer_size, corr_tmp_size, sw_samples_size).
+Definition c07_corr_init := @corr_init Z.
+Definition c07_corr_sample := @corr_sample Z.
+Definition c07_corr_correlate := @corr_correlate Z.
+Definition c07_corr_index := @corr_index Z.
+Definition c07_corr_osl := @corr_outer_symbol_levels Z.
+Definition c07_corr_apply := @corr_apply Z.
+Definition c07_sw_init := @sw_init Z.
+Definition c07_sw_step := @sw_step Z 0%Z (fun a b => (Z.abs b <? Z.abs a)%Z) (fun a => (0 <? a)%Z).
+Definition c07_sw_take_updated := @sw_take_updated Z.
 Extraction "c07_model.ml" c07_init c07_opts c07_handle_frame c07_decode_full_packet c07_parse c07_write_text
-  c07_decode_callsign c07_framer_init c07_framer_step c07_lich_copy c07_unpack_lich c07_sample_index_of c07_sample_index_update0.
+  c07_decode_callsign c07_framer_init c07_framer_step c07_lich_copy c07_unpack_lich c07_sample_index_of c07_sample_index_update0
+  c07_corr_sizes c07_corr_init c07_corr_sample c07_corr_correlate c07_corr_index c07_corr_osl c07_corr_apply c07_sw_init c07_sw_step c07_sw_take_updated.
